@@ -30,19 +30,20 @@
 (***************************************************************************)
 EXTENDS ParserSM, SuffixDefs, Json
 
-CONSTANTS Alpha, MaxN, Blks, MinMs, Wnds, Variant, EmitOps, AllowNTL
+CONSTANTS Alpha, MaxN, Blks, MinMs, Wnds, Variant, EmitOps, AllowNTL, TwoWrites
 
-VARIABLES t,      \* the buffered text (written at once)
+VARIABLES t,      \* the whole text (arrives in one or two writes)
+          avail,  \* bytes written so far
           cf,     \* [Blk, mm, Wnd]
           w,      \* parse position
           bits,   \* positions in the search set
-          sorted, \* the suffix array covers the buffer
+          sorted, \* number of bytes the suffix array covers (0: none yet)
           st,     \* ParserSM envelope state
           ev,     \* last emitted event
           ops
 
-vars == <<t, cf, w, bits, sorted, st, ev, ops>>
-View == <<t, cf, w, bits, sorted>>
+vars == <<t, avail, cf, w, bits, sorted, st, ev, ops>>
+View == <<t, avail, cf, w, bits, sorted>>
 
 RECURSIVE SeqsUpTo(_, _)
 SeqsUpTo(S, n) == IF n = 0 THEN {<<>>} ELSE SeqsUpTo(S, n - 1) \cup [1..n -> S]
@@ -51,14 +52,15 @@ Cfg(c, n) == [kind |-> "GSAP", B |-> n, S |-> n \div 2, Wnd |-> c.Wnd, Blk |-> c
 
 Init ==
   /\ t \in SeqsUpTo(Alpha, MaxN) /\ Len(t) >= 1
+  /\ avail \in (IF TwoWrites THEN 1..Len(t) ELSE {Len(t)})
   /\ cf \in [Blk : Blks, mm : MinMs, Wnd : Wnds]
   /\ cf.mm <= cf.Wnd
-  /\ w = 0 /\ bits = {} /\ sorted = FALSE
-  /\ st = [PInit(Cfg(cf, Len(t))) EXCEPT !.inp = t]
+  /\ w = 0 /\ bits = {} /\ sorted = 0
+  /\ st = [PInit(Cfg(cf, Len(t))) EXCEPT !.inp = SubSeq(t, 1, avail)]
   /\ ev = [op |-> "begin"]
   /\ ops = <<[op |-> "begin", kind |-> "GSAP", BufferSize |-> Len(t), ShrinkSize |-> 0, WindowSize |-> cf.Wnd,
               BlockSize |-> cf.Blk, MinMatchLen |-> cf.mm],
-             [op |-> "write", p |-> t]>>
+             [op |-> "write", p |-> SubSeq(t, 1, avail)]>>
 
 (* lcp(p[f:], p[i:]) for p = t[0..e): common prefix clipped at the block end e *)
 RECURSIVE ClipLcp(_, _, _, _)
@@ -67,30 +69,31 @@ ClipLcp(f, i, e, acc) ==
   ELSE IF t[f + acc + 1] # t[i + acc + 1] THEN acc
   ELSE ClipLcp(f, i, e, acc + 1)
 
-(* neighbours of position i among the members M (i \in M) in suffix order *)
-Before(M, i) == { k \in M : k # i /\ SuffixLess(t, k, i) }
-After(M, i)  == { k \in M : k # i /\ SuffixLess(t, i, k) }
-MaxSuf(S) == CHOOSE k \in S : \A x \in S : x = k \/ SuffixLess(t, x, k)
-MinSuf(S) == CHOOSE k \in S : \A x \in S : x = k \/ SuffixLess(t, k, x)
+(* neighbours of position i among the members M (i \in M) in the suffix    *)
+(* order of the text D the suffix array was built for                      *)
+Before(D, M, i) == { k \in M : k # i /\ SuffixLess(D, k, i) }
+After(D, M, i)  == { k \in M : k # i /\ SuffixLess(D, i, k) }
+MaxSuf(D, S) == CHOOSE k \in S : \A x \in S : x = k \/ SuffixLess(D, x, k)
+MinSuf(D, S) == CHOOSE k \in S : \A x \in S : x = k \/ SuffixLess(D, k, x)
 
 (* the scan loop of Parse from position i; returns [seqs, lit, bits]       *)
-RECURSIVE Scan(_, _, _, _, _)
-Scan(i, e, litIndex, b, seqs) ==
+RECURSIVE Scan(_, _, _, _, _, _)
+Scan(D, i, e, litIndex, b, seqs) ==
   IF i >= e THEN [seqs |-> seqs, lit |-> litIndex, bits |-> b]
   ELSE LET b1 == b \cup {i}
-           bf == Before(b1, i)
-           af == After(b1, i)
-           f1 == IF bf = {} THEN 0 ELSE MaxSuf(bf)
+           bf == Before(D, b1, i)
+           af == After(D, b1, i)
+           f1 == IF bf = {} THEN 0 ELSE MaxSuf(D, bf)
            m1 == IF bf = {} THEN 0 ELSE ClipLcp(f1, i, e, 0)
-           f2 == IF af = {} THEN 0 ELSE MinSuf(af)
+           f2 == IF af = {} THEN 0 ELSE MinSuf(D, af)
            m2 == IF af = {} THEN 0 ELSE ClipLcp(f2, i, e, 0)
            take2 == af # {} /\ (m2 > m1 \/ (m2 = m1 /\ f2 > f1))
            f == IF take2 THEN f2 ELSE f1
            m == IF take2 THEN m2 ELSE m1
            o == i - f
        IN IF m < cf.mm \/ ~(0 < o /\ o < cf.Wnd)
-          THEN Scan(i + 1, e, litIndex, b1, seqs)
-          ELSE Scan(i + m, e, i + m, b1 \cup (i + 1 .. i + m - 1),
+          THEN Scan(D, i + 1, e, litIndex, b1, seqs)
+          ELSE Scan(D, i + m, e, i + m, b1 \cup (i + 1 .. i + m - 1),
                     Append(seqs, <<i - litIndex, m, o, 0>>))
 
 RECURSIVE LitsOf(_, _, _, _)
@@ -101,11 +104,13 @@ LitsOf(seqs, k, pos, acc) ==     \* literal bytes of the sequences, in order
 
 DoParse ==
   \E fl \in (IF AllowNTL THEN {0, 1} ELSE {0}) :
-    LET n == Min(Len(t) - w, cf.Blk) IN
+    LET n == Min(avail - w, cf.Blk) IN
     /\ n > 0
-    /\ LET b0 == IF sorted THEN bits ELSE 0 .. w - 1       \* sort(): the set is rebuilt from the parsed positions
+    /\ LET need == w + n > sorted                         \* if i+n > len(s.sa) { s.sort() }
+           cov  == IF need THEN avail ELSE sorted
+           b0 == IF need THEN 0 .. w - 1 ELSE bits          \* sort(): the set is rebuilt from the parsed positions
            e  == w + n
-           r  == Scan(w, e, w, b0, <<>>)
+           r  == Scan(SubSeq(t, 1, cov), w, e, w, b0, <<>>)
            ntl == fl = 1 /\ r.seqs # <<>>
            newW == IF ntl THEN r.lit ELSE e
            lp  == LitsOf(r.seqs, 1, w, <<>>)
@@ -115,18 +120,28 @@ DoParse ==
           /\ st' = PEff(st, e1)
           /\ w' = newW
           /\ bits' = IF Variant = "forget" /\ ntl THEN r.bits \ (r.lit .. e - 1) ELSE r.bits
-          /\ sorted' = TRUE
+          /\ sorted' = cov
           /\ ops' = IF EmitOps THEN Append(ops, [op |-> "parse", flags |-> fl]) ELSE ops
-    /\ UNCHANGED <<t, cf>>
+    /\ UNCHANGED <<t, avail, cf>>
 
-Next == DoParse
+(* the rest of the data arrives: the suffix array no longer covers the     *)
+(* buffer, the next Parse sorts again and rebuilds the search set          *)
+WriteRest ==
+  /\ avail < Len(t)
+  /\ avail' = Len(t)
+  /\ ev' = [op |-> "write", p |-> SubSeq(t, avail + 1, Len(t)), n |-> Len(t) - avail, err |-> ""]
+  /\ st' = PEff(st, ev')
+  /\ ops' = IF EmitOps THEN Append(ops, [op |-> "write", p |-> SubSeq(t, avail + 1, Len(t))]) ELSE ops
+  /\ UNCHANGED <<t, cf, w, bits, sorted>>
+
+Next == DoParse \/ WriteRest
 Spec == Init /\ [][Next]_vars
 
 (* every emitted block satisfies the envelope (C01 C02 C03 C12 rules) *)
-Refines == [][PWhy(st, ev', {"C12"}) = {}]_vars
-StateInv == w = st.w /\ (sorted => \A i \in 0 .. w - 1 : i \in bits)
+Refines == [][ev'.op = "parse" => PWhy(st, ev', {"C12"}) = {}]_vars
+StateInv == w = st.w /\ (sorted > 0 => \A i \in 0 .. w - 1 : i \in bits)
 (* the search set never holds a position the parser has not reached *)
-NoFuture == sorted => \A k \in bits : k < w
+NoFuture == sorted > 0 => \A k \in bits : k < w
 
 (* "Hot" states for history generation: at the next position a position    *)
 (* that lies AHEAD of it (left in the search set by a NoTrailingLiterals   *)
@@ -134,18 +149,21 @@ NoFuture == sorted => \A k \in bits : k < w
 (* code must refuse it by the 0 < offset test.  Histories that reach such  *)
 (* a state are always replayed into the real parser (not only sampled).    *)
 FutureWinsAt(i, e, b) ==
-  LET b1 == b \cup {i}
-      bf == Before(b1, i)
-      af == After(b1, i)
-      f1 == IF bf = {} THEN 0 ELSE MaxSuf(bf)
+  LET D  == SubSeq(t, 1, sorted)
+      b1 == b \cup {i}
+      bf == Before(D, b1, i)
+      af == After(D, b1, i)
+      f1 == IF bf = {} THEN 0 ELSE MaxSuf(D, bf)
       m1 == IF bf = {} THEN 0 ELSE ClipLcp(f1, i, e, 0)
-      f2 == IF af = {} THEN 0 ELSE MinSuf(af)
+      f2 == IF af = {} THEN 0 ELSE MinSuf(D, af)
       m2 == IF af = {} THEN 0 ELSE ClipLcp(f2, i, e, 0)
       take2 == af # {} /\ (m2 > m1 \/ (m2 = m1 /\ f2 > f1))
       f == IF take2 THEN f2 ELSE f1
       m == IF take2 THEN m2 ELSE m1
   IN m >= cf.mm /\ f > i
-Hot == sorted /\ w < Len(t) /\ FutureWinsAt(w, w + Min(Len(t) - w, cf.Blk), bits)
+Hot == LET n == Min(avail - w, cf.Blk) IN
+       \/ sorted > 0 /\ w + n <= sorted /\ n > 0 /\ FutureWinsAt(w, w + n, bits)
+       \/ sorted > 0 /\ n > 0 /\ w + n > sorted /\ bits # {}     \* next Parse sorts again over a used search set
 
 Emit == EmitOps =>
           /\ PrintT(<<"VERIF_OPS", ToJson(ops')>>)
